@@ -131,9 +131,9 @@ func propC05(w *World, r *Report) {
 	}
 	sort.Slice(fns, func(i, j int) bool { return fnName(fns[i]) < fnName(fns[j]) })
 	RunBounds(w, r, "bounds", br, fns)
-	RunLoopTerm(w, r, br, fns)
+	runLoopTerm(w, r, br, fns, true)
 	r.Floor("bounds", 200)
-	r.Floors["loopterm"] = 10
+	r.Floor("loopterm", 10)
 }
 
 func findMethod(files []*ast.File, recv, name string) *ast.FuncDecl {
